@@ -187,16 +187,21 @@ WITH_EP = [["paid_loss", "reported_loss", "earned_premium"], ["paid_loss", "earn
 NO_EP = [["reported_loss", "paid_loss"], ["paid_loss"], ["open_claims", "reported_claims"]]
 
 
-def gen_case(rng, op, defaults=False, prime=False):
+def gen_case(rng, op, defaults=False, prime=False, given=None):
     """one generated call: dict(tri, cells, info, fn, args, kwargs, req, in_domain, labels).
     `req` always carries the NOMINAL parameter values (the library's defaults where an option is omitted);
     with `defaults` options are omitted from the actual call with high probability; `prime` favours inputs
-    that disturb shared state (triangles lacking the static field, calls that raise)."""
-    omit = (lambda: rng.random() < 0.7) if (defaults or prime) else (lambda: False)
+    that disturb shared state (triangles lacking the static field, calls that raise); `given` = (triangle,
+    cells, info) of an already built (DERIVED) triangle to be used as the input instead of a fresh one."""
+    p_omit = 0.85 if given is not None else 0.7
+    omit = (lambda: rng.random() < p_omit) if (defaults or prime) else (lambda: False)
     labels = []
     if op == "rightTri":
-        cells, info = rand_triangle(rng, break_chain=rng.random() < 0.04)
-        tri = Triangle(cells)
+        if given is not None:
+            tri, cells, info = given
+        else:
+            cells, info = rand_triangle(rng, break_chain=rng.random() < 0.04)
+            tri = Triangle(cells)
         kwargs = {}
         unit, lags, wl = "month", None, None
         if not omit():
@@ -214,8 +219,11 @@ def gen_case(rng, op, defaults=False, prime=False):
         labels += [f"rightTri/unit={unit}", "rightTri/lags=" + ("own" if lags is None else "list")]
         fn, args = make_right_triangle, ()
     elif op == "rightDiag":
-        cells, info = rand_triangle(rng, break_chain=rng.random() < 0.04)
-        tri = Triangle(cells)
+        if given is not None:
+            tri, cells, info = given
+        else:
+            cells, info = rand_triangle(rng, break_chain=rng.random() < 0.04)
+            tri = Triangle(cells)
         kwargs = {}
         hist = False
         if not omit():
@@ -227,8 +235,11 @@ def gen_case(rng, op, defaults=False, prime=False):
         labels += [f"rightDiag/hist={hist}"]
         fn, args = make_right_diagonal, (dates,)
     elif op == "fill":
-        cells, info = rand_triangle(rng, want_gaps=True)
-        tri = Triangle(cells)
+        if given is not None:
+            tri, cells, info = given
+        else:
+            cells, info = rand_triangle(rng, want_gaps=True)
+            tri = Triangle(cells)
         comp = compatible_resolutions(cells)
         n_evals = len({c.evaluation_date for c in cells})
         kwargs = {}
@@ -258,12 +269,16 @@ def gen_case(rng, op, defaults=False, prime=False):
             pool = NO_EP                                   # the default static field is absent: KeyError in /repo
         elif defaults:
             pool = WITH_EP
-        for _ in range(20):
-            cells, info = rand_triangle(rng, late_start=True, fields_pool=pool)
+        if given is not None:
+            tri, cells, info = given
             n_evals = len({c.evaluation_date for c in cells})
-            if not defaults or n_evals > 1:
-                break
-        tri = Triangle(cells)
+        else:
+            for _ in range(20):
+                cells, info = rand_triangle(rng, late_start=True, fields_pool=pool)
+                n_evals = len({c.evaluation_date for c in cells})
+                if not defaults or n_evals > 1:
+                    break
+            tri = Triangle(cells)
         fields = sorted({k for c in cells for k in c.values})
         common_fields = [f for f in fields if all(f in c.values for c in cells)]
         kwargs = {}
@@ -296,6 +311,143 @@ def gen_case(rng, op, defaults=False, prime=False):
     labels.append(f"{op}/omitted-options={len(req) - 1 - len(kwargs) - (1 if op == 'rightDiag' else 0)}")
     return {"tri": tri, "cells": cells, "info": info, "fn": fn, "args": args, "kwargs": kwargs, "req": req,
             "in_domain": in_domain, "labels": labels}
+
+
+def own_resolutions(cells):
+    """(eval_date_resolution, period_resolution) recomputed from the cells alone (no cache involved)"""
+    from math import gcd
+    from functools import reduce
+
+    def res(ids):
+        diffs = [b - a for a, b in zip(ids[:-1], ids[1:])]
+        return reduce(gcd, diffs) if diffs else None
+    evs = sorted(month_index(d) for d in {c.evaluation_date for c in cells})
+    pers = {c.period for c in cells}
+    starts = sorted({month_index(a) for a, _ in pers} | {month_index(b) + 1 for _, b in pers})
+    return res(evs), res(starts)
+
+
+def read_cached(rng, tri):
+    """read (and thereby cache) the derived accessors of a triangle; returns how many were read"""
+    names = ["eval_date_resolution", "period_resolution", "periods", "evaluation_dates", "evaluation_date",
+             "slices", "metadata", "common_metadata", "metadata_differences", "fields", "num_samples",
+             "is_disjoint", "is_slicewise_disjoint", "is_incremental", "is_multi_slice", "is_empty",
+             "experience_gaps", "field_cell_counts", "field_slice_counts", "has_consistent_currency",
+             "has_consistent_risk_basis", "has_consistent_values_shapes", "right_edge", "period_rows",
+             "slice_period_rows"]
+    meths = ["dev_lags", "is_regular", "is_semi_regular"]
+    r = rng.random()
+    if r < 0.08:
+        names, meths = [], []                                  # control: nothing cached before deriving
+    elif r < 0.25:
+        names = ["eval_date_resolution", "period_resolution"] + rng.sample(names[2:], rng.randrange(0, 6))
+        meths = rng.sample(meths, rng.randrange(0, 3))
+    n = 0
+    for nm in names:
+        if call(lambda t, nm=nm: getattr(t, nm), tri)[0] == "ok":
+            n += 1
+    for nm in meths:
+        if call(lambda t, nm=nm: getattr(t, nm)(), tri)[0] == "ok":
+            n += 1
+    return n
+
+
+def fine_parent(rng, op):
+    """a parent triangle on a FINE evaluation grid (lag step 1 or 3 months, many lags) from which coarser
+    subsets are derived: (cells, info, step)"""
+    g = rng.choice([1, 3, 3, 6])
+    step = rng.choice([1, 1, 1, 3] if g != 6 else [1, 3])
+    start = D(rng.randrange(1996, 2024), rng.choice(list(range(1, 13, g))), 1)
+    n_slices = rng.choice([1, 2, 2, 3])
+    # IncrementalCell only for fill: a backfilled copy of a LATER incremental cell keeps its previous date and is
+    # refused by the constructor (loop breaks; outside the domain `BackfillOk`), and the right-hand operators need
+    # an unbroken chain
+    kind = rng.choice(["U", "U", "C", "I"] if op == "fill" else ["U", "U", "C"])
+    vkind = rng.choice(["int", "int", "float", "farr", "iarr"])
+    metas = gen.rand_metas(rng, n_slices, single_attr=rng.random() < 0.7)
+    shape = rng.choice(["complete", "upper_left", "upper_left", "ragged"])
+    n_periods = rng.randrange(2, 6)
+    n_lags = rng.randrange(5, 14)
+    first_k = rng.choice([0, 0, 0, 1])
+    rows = make_rows(rng, g, start, n_periods, shape, step, n_lags, first_k)
+    fields = rng.choice(WITH_EP)
+    cells = []
+    for m in metas:
+        cells += gen.cells_from_layout(rng, rows, m, kind=kind, fields=fields, vkind=vkind, n_samples=3)
+    rng.shuffle(cells)
+    info = {"g": g, "step": step, "slices": n_slices, "kind": kind, "vkind": vkind, "shape": "derived:" + shape,
+            "broken": kind == "I"}
+    return cells, info
+
+
+def derive(rng, parent, info):
+    """(label, derived triangle) — a sub-triangle of `parent` obtained through the library's own deriving
+    methods, preferably on a COARSER lag grid with gaps / late-starting periods"""
+    step = info["step"]
+    cells = parent.cells
+    lag_of = lambda c: int(round(c.dev_lag()))
+    how = rng.choice(["filter-grid", "filter-grid", "filter-grid", "filter-set", "filter-meta", "clip", "getitem",
+                      "getitem-int", "select", "derive_metadata", "chain"])
+
+    def grid_filter(t):
+        k = step * rng.choice([2, 3, 3, 3, 6, 12])
+        r = rng.choice([0, 0, 0, step])
+        # late-starting periods / gaps: per period a minimum lag and a few dropped lags
+        lo = {p: rng.choice([0, 0, k, 2 * k]) for p in {c.period for c in t.cells}}
+        drop = {(p, l) for p in lo for l in range(0, 40 * step, k) if rng.random() < 0.2}
+        return t.filter(lambda c: lag_of(c) % k == r % k and lag_of(c) >= lo[c.period]
+                        and (c.period, lag_of(c) - r % k) not in drop)
+
+    if how == "filter-grid":
+        sub = grid_filter(parent)
+    elif how == "filter-set":
+        keep = {id(c) for c in cells if rng.random() < 0.6}
+        sub = parent.filter(lambda c: id(c) in keep)
+    elif how == "filter-meta":
+        m = rng.choice(parent.metadata)
+        sub = grid_filter(parent.filter(lambda c: c.metadata == m)) if rng.random() < 0.6 else \
+            parent.filter(lambda c: c.metadata == m)
+    elif how == "clip":
+        evs = sorted({c.evaluation_date for c in cells})
+        pss = sorted({c.period_start for c in cells})
+        kw = {}
+        if rng.random() < 0.6:
+            kw["max_eval"] = rng.choice(evs)
+        if rng.random() < 0.4:
+            kw["min_eval"] = rng.choice(evs[:max(1, len(evs) // 2)])
+        if rng.random() < 0.3:
+            kw["min_period"] = rng.choice(pss)
+        if rng.random() < 0.3:
+            kw["max_period"] = rng.choice([c.period_end for c in cells])
+        sub = parent.clip(**kw)
+    elif how == "getitem":
+        evs = sorted({c.evaluation_date for c in cells})
+        pss = sorted({c.period_start for c in cells})
+        a, b = sorted(rng.sample(range(len(pss)), 2)) if len(pss) > 1 else (0, 0)
+        e1, e2 = sorted(rng.sample(range(len(evs)), 2)) if len(evs) > 1 else (0, 0)
+        md = rng.choice(parent.metadata) if rng.random() < 0.4 else slice(None, None, None)
+        sub = parent[pss[a]:pss[b], (evs[e1] if rng.random() < 0.5 else None):evs[e2], md]
+        if rng.random() < 0.5:
+            sub = grid_filter(sub)
+    elif how == "getitem-int":
+        i = rng.randrange(0, max(1, len(cells) // 2))
+        sub = parent[i:rng.randrange(i + 1, len(cells) + 1)]
+    elif how == "select":
+        flds = list(parent.fields)
+        keep = [f for f in flds if f == "earned_premium" or rng.random() < 0.6] or flds
+        sub = parent.select(keep)
+        if rng.random() < 0.6:
+            sub = grid_filter(sub)
+    elif how == "derive_metadata":
+        sub = parent.derive_metadata(currency=rng.choice(["USD", "EUR"]))
+        if rng.random() < 0.6:
+            sub = grid_filter(sub)
+    else:
+        evs = sorted({c.evaluation_date for c in cells})
+        mid = grid_filter(parent)
+        read_cached(rng, mid)
+        sub = mid.clip(max_eval=rng.choice(evs[len(evs) // 2:])) if rng.random() < 0.5 else grid_filter(mid)
+    return how, sub
 
 
 def accessors(tri):
@@ -341,7 +493,7 @@ def correspondence(ctx):
     def run_case(op, case, stream):
         tri = case["tri"]
         snap = w_cells(tri.cells)                    # by value, BEFORE the call
-        acc_before = accessors(tri) if stream == "seq" else None
+        acc_before = accessors(tri) if stream != "main" else None
         res = call(case["fn"], tri, *case["args"], **case["kwargs"])
         d = impl_dump(res)
         req = {**case["req"], "cells": snap, "impl": d.get("ok")}
@@ -353,7 +505,7 @@ def correspondence(ctx):
             changed = [{"before": b, "after": a} for b, a in zip(snap, after) if a != b][:3]
             ctx.fail(f"{op}: the input triangle's cells were modified in place by the call", bare,
                      {"changed": changed})
-        if stream == "seq":
+        if stream != "main":
             if res[0] == "ok":
                 out = res[1]
                 if accessors(out) != recomputed(out):
@@ -400,6 +552,62 @@ def correspondence(ctx):
             ctx.count(f"seq:prime/{pop}=" + pres[0])
         run_case(op, gen_case(rng, op, defaults=True), "seq")
 
+    # (iii) DERIVED inputs: a parent on a fine evaluation grid whose cached accessors (eval_date_resolution,
+    # period_resolution, periods, evaluation_dates, dev_lags(), slices, metadata, is_regular() ...) have been READ,
+    # a sub-triangle derived from it through the library (filter / clip / [...] / select / derive_metadata, chains),
+    # usually on a coarser lag grid with gaps and late-starting periods, then the operator with DEFAULT arguments.
+    # The model runs on the derived triangle's CELLS (it knows nothing about caches).
+    n_der = int(total * 0.25)
+    for i in range(n_der):
+        op = ["fill", "backfill", "fill", "backfill", "rightTri", "rightDiag"][i % 6]
+        for _ in range(30):
+            pcells, info = fine_parent(rng, op)
+            parent = Triangle(pcells)
+            n_read = read_cached(rng, parent)
+            if rng.random() < 0.3:                             # the cache may also be warmed by an operator call
+                call(fill_forward_gaps if rng.random() < 0.5 else backfill, parent)
+            st, v = call(derive, rng, parent, info)
+            if st != "ok":
+                ctx.count("derived:derive-raises")
+                continue
+            how, sub = v
+            if len(sub) == 0 or (op in ("fill", "backfill") and len(sub.evaluation_dates) < 2 and rng.random() < 0.9):
+                continue
+            coords = [(c.metadata, c.period, c.evaluation_date) for c in sub.cells]
+            if len(set(coords)) != len(coords):
+                # e.g. derive_metadata(currency=...) merged two slices: a coordinate occupied twice is outside
+                # the property's domain (rows are dicts keyed by lag)
+                ctx.count("derived:skipped-duplicate-coordinates")
+                continue
+            break
+        else:
+            continue
+        sub_cells = list(sub.cells)
+        ctx.count(f"derived:how={how}")
+        ctx.count("derived:parent-accessors-read=" + ("0" if n_read == 0 else "some" if n_read < 20 else "all"))
+        own = own_resolutions(sub_cells)
+        ctx.count("derived:coarser-than-parent=" + str(own[0] != own_resolutions(pcells)[0]))
+        # the derived triangle's own accessors must describe ITS cells
+        if accessors(sub) != recomputed(sub):
+            ctx.fail(f"{op}: accessors of a derived triangle ({how}) disagree with its cells",
+                     {"op": op, "how": how, "cells": w_cells(sub_cells), "parent": w_cells(parent.cells)},
+                     {"accessors": accessors(sub), "recomputed": recomputed(sub)})
+        got = (call(lambda t: t.eval_date_resolution, sub), call(lambda t: t.period_resolution, sub))
+        if got[0][0] == "ok" and got[1][0] == "ok" and (got[0][1], got[1][1]) != own:
+            ctx.fail(f"{op}: eval_date_resolution / period_resolution of a derived triangle ({how}) are not those of "
+                     f"its cells (fill_forward_gaps / backfill default to them)",
+                     {"op": op, "how": how, "cells": w_cells(sub_cells), "parent": w_cells(parent.cells)},
+                     {"accessors": [got[0][1], got[1][1]], "recomputed": list(own)})
+            # build a fresh object for the resolution-independent part? no: the operator is run on the SAME derived
+            # object below, so a wrong cached resolution also shows up as off-grid cells in the Spec clauses
+        sub2 = sub if rng.random() < 0.8 else call(lambda: derive(rng, parent, info)[1])[1]
+        if not isinstance(sub2, Triangle) or len(sub2) == 0 or \
+                len({(c.metadata, c.period, c.evaluation_date) for c in sub2.cells}) != len(sub2.cells):
+            sub2 = sub
+        case = gen_case(rng, op, defaults=True, given=(sub2, list(sub2.cells), info))
+        case["labels"] = ["derived:" + lab for lab in case["labels"]]
+        run_case(op, case, "derived")
+
     outs = common.Driver("drv_c15").run(reqs)
 
     for (bare, d, in_domain), out in zip(cases, outs):
@@ -445,7 +653,11 @@ if __name__ == "__main__":
              "explicit resolution; minimum lags -12..6)}; plus a SEQUENCE stream (30 %): 1-2 priming calls of the same / a "
              "related operator on other triangles (incl. ones lacking earned_premium, calls that raise), then the call "
              "under test with default arguments, run twice on the same triangle with the first result damaged in place "
-             "in between (identical dumps required), accessors of input and output re-read. distinct = distinct canonical (cells, parameters) dump; "
+             "in between (identical dumps required), accessors of input and output re-read; plus a DERIVED stream (25 %): a "
+             "parent on a fine evaluation grid whose cached accessors (eval_date_resolution, period_resolution, periods, "
+             "evaluation_dates, dev_lags(), slices, metadata, is_regular() ...) were read, a sub-triangle derived through "
+             "filter / clip / [...] / select / derive_metadata (mostly a coarser lag grid with gaps and late-starting "
+             "periods), then the operator with default arguments; the model runs on the derived triangle's cells. distinct = distinct canonical (cells, parameters) dump; "
              "non-trivial = more than one observed cell",
         assumptions=["month-aligned triangles from 1996 on (add_months is exact there; D8 concerns dates before 1970)",
                      "fill_forward_gaps / backfill on a single evaluation date need an explicit eval_resolution",
